@@ -1,4 +1,5 @@
 """C35 — Step lifecycle telemetry on the stream is balanced and ordered."""
+import random
 from collections import Counter
 
 from props._engine_common import run_l1, run_l2, report_l2
@@ -126,6 +127,30 @@ def run(ctx):
     fails, facts = run_l2(ctx, [S.fanout, S.irflow, S.waitfan], ctx.n(150, 3000), l2_monitor,
                           need=(("preparing", 10), ("returned_input_required", 10), ("state_changes", 200)))
     report_l2(ctx, fails)
+    # resumed runs: a run snapshotted with work in progress and resumed re-starts that work; the stream of the RESUMED run
+    # must be well-formed on its own (every NOT_RUNNING preceded by the RUNNING of that slot, bodies entered <= RUNNINGs)
+    import vloop
+    from props.C12 import _snapshot_resume
+    rngr = random.Random(ctx.seed * 97 + 5)
+    nrs, resumed = ctx.n(70, 800), 0
+    for i in range(nrs):
+        seed = rngr.randrange(1 << 30)
+        r = vloop.run(_snapshot_resume(S.countflow, seed))
+        if not r.get("snapshot") or not r["running"]:
+            continue
+        resumed += 1
+        ctx.count(1, ("resume-stream", r["steps"], len(r["running"])))
+        why, _ = l2_monitor(r["spec"], r["rec"], r["obs"])
+        for w in why:
+            ctx.violation("C35 fails on the real engine: stream of a run resumed from a snapshot with %d invocations in progress: %s"
+                          % (len(r["running"]), w),
+                          dict(kind="implementation-monitor/L2", input=dict(template="countflow snapshot/resume", seed=seed)))
+            break
+        if why:
+            break
+    ctx.programs += nrs
+    ctx.suite("engine.resumed_stream", attempts=nrs, resumed_with_work_in_progress=resumed)
+    ctx.require_coverage("engine.resumed_stream", "resumed_with_work_in_progress", resumed, 10)
     # the run-loop theorems (C35_run_loop_*) rest on Model/Runner.v: tie it to _ControlLoopRunner
     from props._engine_common import run_runnerdiff
     run_runnerdiff(ctx, ctx.n(60, 1500), 'C35_run_loop_stream_is_log_commands / C35_run_loop_stream_telemetry')
